@@ -242,6 +242,9 @@ func (p *Parser) nextKeepSpaces() {
 }
 
 func (p *Parser) next() {
+	// Only the literal about to be read may set eqlOffs; a value left over
+	// from an earlier literal must not be applied to this token's p.val.
+	p.eqlOffs = -1
 	if p.r == runeEOF {
 		p.tok = _EOF
 		return
